@@ -235,7 +235,9 @@ def dateparse(val: str, t: type[DateTimeT]) -> DateTimeT:
                 return time  # type: ignore[return-value]
     if val.startswith("-P") and issubclass(t, datetime.timedelta):
         # The parser has no notion of a negative duration; see `isoformat`.
-        return -dateparse(val[1:], t)  # type: ignore[return-value]
+        #   (`timedelta`'s own negation is exact, `pendulum.Duration`'s goes through
+        #   floating-point seconds and loses microseconds on long durations.)
+        return datetime.timedelta.__neg__(dateparse(val[1:], t))  # type: ignore[return-value]
     try:
         # When `exact=False`, the only two possibilities are DateTime and Duration.
         parsed: pendulum.DateTime | pendulum.Duration = pendulum.parse(val)  # type: ignore[assignment]
